@@ -6,6 +6,11 @@
 //! recorded. Request:
 //!   bfee settlex <accounts 0=none|1=builder|2=other user> <recorded> <escrow> <vault> <times 1|2>
 //!   -> ok <transferred…> | <recorded'> <escrow'> <vault'>   |  err NotProvided|InvalidUser|Transfer
+//!   bfee hist <escrow0> <vault0> <n> { i <incr> <size> <factor> <pmin> | d <size> <factor> <pmin> <output> | s }*
+//!   -> ok <recorded> <escrow> <vault> | <i:after:fee|i:err|d:recorded|d:err|s:amount|s:err>…
+//! `hist`: ONE order account and ONE escrow/claim-vault pair live through a whole history; increases and
+//! decreases run the real helpers + `Order::record_builder_fee` on the order account's bytes (the routed
+//! amounts are credited to the real SPL escrow account), settlements run the real instruction.
 use anchor_lang::prelude::*;
 use anchor_lang::solana_program::instruction::Instruction;
 use anchor_lang::solana_program::program_pack::Pack;
@@ -182,14 +187,149 @@ fn run(t: &[&str]) -> Option<String> {
     Some(format!("ok {} | {} {esc} {vlt}", amts.iter().map(|x| x.to_string()).collect::<Vec<_>>().join(" "), order_after.builder_fee_amount()))
 }
 
+fn set_token_amount(a: &mut Acc, amount: u64) {
+    let d = &mut bytemuck::cast_slice_mut::<u128, u8>(&mut a.buf)[8..8 + a.len];
+    let mut t = spl_token::state::Account::unpack(d).unwrap();
+    t.amount = amount;
+    t.pack_into_slice(d);
+}
+fn order_mut(a: &mut Acc) -> &mut Order {
+    let d = &mut bytemuck::cast_slice_mut::<u128, u8>(&mut a.buf)[8..8 + a.len];
+    bytemuck::from_bytes_mut(&mut d[8..])
+}
+
+enum HOp { Inc(u64, u128, u128, u128), Dec(u128, u128, u128, u64), Settle }
+
+fn parse_hist(t: &[&str]) -> Option<(u64, u64, Vec<HOp>)> {
+    if t.len() < 5 || t[0] != "bfee" || t[1] != "hist" { return None; }
+    let (escrow, vault): (u64, u64) = (t[2].parse().ok()?, t[3].parse().ok()?);
+    let n: usize = t[4].parse().ok()?;
+    let mut ops = Vec::new();
+    let mut i = 5;
+    while i < t.len() {
+        match t[i] {
+            "i" => { ops.push(HOp::Inc(t.get(i + 1)?.parse().ok()?, t.get(i + 2)?.parse().ok()?, t.get(i + 3)?.parse().ok()?, t.get(i + 4)?.parse().ok()?)); i += 5; }
+            "d" => { ops.push(HOp::Dec(t.get(i + 1)?.parse().ok()?, t.get(i + 2)?.parse().ok()?, t.get(i + 3)?.parse().ok()?, t.get(i + 4)?.parse().ok()?)); i += 5; }
+            "s" => { ops.push(HOp::Settle); i += 1; }
+            _ => return None,
+        }
+    }
+    if ops.len() != n { return None; }
+    Some((escrow, vault, ops))
+}
+
+/// returns the response and the list of property violations seen on the real state along the way
+fn run_hist(t: &[&str]) -> Option<(String, Vec<String>)> {
+    let (escrow0, vault0, ops) = parse_hist(t)?;
+    TRANSFERS.lock().unwrap().clear(); *EVENTS.lock().unwrap() = 0; *SPL_FAILED.lock().unwrap() = false;
+    let sto = gmsol_store::ID;
+    let sys = anchor_lang::system_program::ID;
+    let (store_k, order_k, mint_k, builder_k) = (k(21), k(22), k(23), k(24));
+    let escrow_k = get_associated_token_address(&order_k, &mint_k);
+    let vault_k = get_associated_token_address(&builder_k, &mint_k);
+    let ev_k = Pubkey::find_program_address(&[b"__event_authority"], &sto).0;
+    let store: Box<Store> = boxed();
+    let mut order: Box<Order> = boxed();
+    c32::order_prepare_for_settlement(&mut order, &store_k, &builder_k, &mint_k, &escrow_k, 0);
+    let mut user: Box<UserHeader> = boxed();
+    c30::user_init(&mut user, &store_k, &k(26), 255).ok()?;
+    let mut accs = vec![
+        Acc::zc(store_k, sto, &*store), Acc::zc(order_k, sto, &*order).writable(), Acc::new(mint_k, spl_token::ID, &mint_account()),
+        Acc::new(escrow_k, spl_token::ID, &token_account(&mint_k, &order_k, escrow0)).writable(),
+        Acc::zc(builder_k, sto, &*user), Acc::new(vault_k, spl_token::ID, &token_account(&mint_k, &builder_k, vault0)).writable(),
+        Acc::new(spl_token::ID, sys, &[]).exec(), Acc::new(ev_k, sys, &[]), Acc::new(sto, sys, &[]).exec()];
+    let data = gmsol_store::instruction::SettleBuilderFee {}.data();
+    let mut labels = Vec::new();
+    let mut viol = Vec::new();
+    let mut inflow: u128 = 0; // tokens credited to the escrow by charges / decreases
+    for op in &ops {
+        let rec_before = order_mut(&mut accs[1]).builder_fee_amount();
+        let esc_before = token_amount(accs[3].data());
+        match op {
+            HOp::Inc(incr, size, factor, pmin) => {
+                let p = c32::Price { min: *pmin, max: *pmin };
+                // builder-fee block of execute_increase_position: charge → transfer_out(fee) → record(fee)
+                let r = c32::charge_builder_fee_on_collateral_increment(*incr, *size, *factor, &p)
+                    .and_then(|(after, fee)| { c32::record_builder_fee(order_mut(&mut accs[1]), fee)?; Ok((after, fee)) });
+                match r {
+                    Ok((after, fee)) => {
+                        let e = esc_before.checked_add(fee)?; // outside the protocol if the escrow leaves u64
+                        set_token_amount(&mut accs[3], e);
+                        inflow += fee as u128;
+                        if after as u128 + fee as u128 != *incr as u128 { viol.push("increase: after + fee ≠ increment".into()); }
+                        labels.push(format!("i:{after}:{fee}"));
+                    }
+                    Err(_) => labels.push("i:err".into()),
+                }
+            }
+            HOp::Dec(size, factor, pmin, output) => {
+                let p = c32::Price { min: *pmin, max: *pmin };
+                // builder-fee block of execute_decrease_position: compute → clamp(payable, output) → u64 → record;
+                // the final output amount lands in the order's escrow
+                let r = c32::compute_builder_fee_amount(*size, *factor, &p).and_then(|payable| {
+                    let paid = c32::clamp_builder_fee_amount(payable, (*output).into());
+                    let rec = u64::try_from(paid).map_err(|_| anchor_lang::error!(CoreError::TokenAmountOverflow))?;
+                    c32::record_builder_fee(order_mut(&mut accs[1]), rec)?;
+                    Ok(rec)
+                });
+                match r {
+                    Ok(rec) => {
+                        let e = esc_before.checked_add(*output)?;
+                        set_token_amount(&mut accs[3], e);
+                        inflow += *output as u128;
+                        if rec > *output { viol.push(format!("decrease: recorded {rec} exceeds the output {output}")); }
+                        labels.push(format!("d:{}", order_mut(&mut accs[1]).builder_fee_amount()));
+                    }
+                    Err(_) => labels.push("d:err".into()),
+                }
+            }
+            HOp::Settle => {
+                let before = TRANSFERS.lock().unwrap().len();
+                match call_entry(&mut accs, &data) {
+                    Ok(()) => {
+                        let tr = TRANSFERS.lock().unwrap().clone();
+                        let amt = if tr.len() > before { tr[before] } else { 0 };
+                        if amt != rec_before { viol.push(format!("settlement paid {amt} although {rec_before} was recorded and backed")); }
+                        if order_mut(&mut accs[1]).builder_fee_amount() != 0 { viol.push("record not zeroed by settlement".into()); }
+                        labels.push(format!("s:{amt}"));
+                    }
+                    Err(_) => labels.push("s:err".into()),
+                }
+            }
+        }
+        // charging invariant on the REAL state after every step, and conservation
+        let (rec, esc, vlt) = (order_mut(&mut accs[1]).builder_fee_amount(), token_amount(accs[3].data()), token_amount(accs[5].data()));
+        if rec > esc { viol.push(format!("recorded {rec} exceeds the escrow {esc}")); }
+        if esc as u128 + vlt as u128 != escrow0 as u128 + vault0 as u128 + inflow { viol.push("tokens not conserved between escrow and claim vault".into()); }
+    }
+    let (rec, esc, vlt) = (order_mut(&mut accs[1]).builder_fee_amount(), token_amount(accs[3].data()), token_amount(accs[5].data()));
+    Some((format!("ok {rec} {esc} {vlt} | {}", labels.join(" ")), viol))
+}
+
+thread_local! { static HIST_VIOL: std::cell::RefCell<Vec<String>> = const { std::cell::RefCell::new(Vec::new()) }; }
+
 fn exec(req: &str) -> String {
     let t: Vec<&str> = req.split(' ').collect();
+    if t.get(1) == Some(&"hist") {
+        return match std::panic::catch_unwind(|| run_hist(&t)) {
+            Ok(Some((s, v))) => { HIST_VIOL.with(|h| *h.borrow_mut() = v); s }
+            Ok(None) => "bad-op".into(),
+            Err(_) => "panic".into(),
+        };
+    }
     match std::panic::catch_unwind(|| run(&t)) { Ok(Some(s)) => s, Ok(None) => "bad-op".into(), Err(_) => "panic".into() }
 }
 
 /// Property oracle on the implementation (no model): Ok(nt) / Err(violation)
 fn oracle(req: &str, resp: &str) -> std::result::Result<bool, String> {
     let t: Vec<&str> = req.split(' ').collect();
+    if t[1] == "hist" {
+        // violations were collected on the real state after every step of the history
+        let v = HIST_VIOL.with(|h| std::mem::take(&mut *h.borrow_mut()));
+        if resp == "panic" { return Err("panicked".into()); }
+        if let Some(first) = v.into_iter().next() { return Err(first); }
+        return Ok(resp.split(" | ").nth(1).map(|l| l.split(' ').any(|x| !x.is_empty() && !x.ends_with(":err") && x != "s:0")).unwrap_or(false));
+    }
     let accounts: u8 = t[2].parse().unwrap();
     let (recorded, escrow, vault): (u128, u128, u128) = (t[3].parse().unwrap(), t[4].parse().unwrap(), t[5].parse().unwrap());
     let times: usize = t[6].parse().unwrap();
@@ -218,7 +358,29 @@ fn oracle(req: &str, resp: &str) -> std::result::Result<bool, String> {
     }
 }
 
+fn gen_hist(r: &mut Rng) -> String {
+    const U: u128 = 100_000_000_000_000_000_000;
+    let n = r.range(1, 8);
+    let escrow0 = if r.chance(1, 2) { 0 } else { r.range(0, 1_000_000) };
+    let vault0 = match r.below(6) { 0 => u64::MAX - r.below(2_000_000), _ => r.range(0, 1_000_000) };
+    let mut s = format!("bfee hist {escrow0} {vault0} {n}");
+    for _ in 0..n {
+        let size: u128 = r.range(1, 5_000_000) as u128 * U / r.range(1, 100) as u128;
+        let factor: u128 = match r.below(6) { 0 => 0, 1 => U, _ => U / 100_000 * r.range(1, 2000) as u128 };
+        let pmin: u128 = match r.below(12) { 0 => 0, _ => 10u128.pow(r.range(12, 18) as u32) * r.range(1, 99_999) as u128 / 1000 };
+        let fee = if factor == 0 || pmin == 0 { 0 } else { (size / U * factor / pmin).min(1 << 40) as u64 };
+        let near = |r: &mut Rng, x: u64| -> u64 { match r.below(5) { 0 => x, 1 => x + 1, 2 => x.saturating_sub(1), 3 => x / 2, _ => x + r.range(0, 1_000_000) } };
+        match r.below(7) {
+            0 | 1 => s += &format!(" i {} {size} {factor} {pmin}", near(r, fee)),
+            2 | 3 => s += &format!(" d {size} {factor} {pmin} {}", near(r, fee)),
+            _ => s += " s",
+        }
+    }
+    s
+}
+
 fn gen_req(r: &mut Rng) -> String {
+    if r.chance(1, 3) { return gen_hist(r); }
     let recorded: u64 = match r.below(6) { 0 => 0, 1 => r.num(64) as u64, 2 => u64::MAX, _ => r.range(1, 1_000_000) };
     let escrow: u64 = match r.below(8) { 0 => 0, 1 => recorded.saturating_sub(r.range(1, 10)), 2 => recorded, 3 => r.num(64) as u64, _ => recorded.saturating_add(r.range(0, 1_000_000)) };
     let vault: u64 = match r.below(6) { 0 => u64::MAX - r.below(1_000_000), 1 => r.num(64) as u64, _ => r.range(0, 1_000_000) };
